@@ -206,8 +206,13 @@ def run(rep, pdb, tier):
             guard_ok = not ifs
             if idx_ok and before_trim and guard_ok:
                 okdd, det = True, "leading coefficient cleared explicitly and unconditionally before trim"
-        if pops and not okdd:
-            okdd, det = True, "leading coefficient popped explicitly"
+        # a pop / truncate must be just as unconditional as a clear: `if top > 0 { r.coeffs.truncate(top) }` leaves the residue of
+        # the LAST step (a constant remainder) in place, and the loop then stalls exactly as before
+        upops = [n for n in pops if not [a for a in ancestors(n) if a.get("k") == "If" and any(x is w for x in ancestors(a))]]
+        if upops and not okdd:
+            okdd, det = True, "leading coefficient popped explicitly and unconditionally"
+        elif pops and not okdd:
+            det = "the leading coefficient is removed only under a condition (%s): on the other path the rounding residue stays" % loc(pops[0])
     rep.add("degree-drops", rule, okdd, ra[0].node if ra else w, det)
     rep.floor("zero-divisor/", 2)
     rep.floor("no-spin/", 2)
